@@ -124,15 +124,16 @@ func goLiteral(val string, t types.Type, qual types.Qualifier) (string, bool) {
 func genReplayTest(prog *Prog, tr *TargetResult, r *OblResult) (src string, ok bool, why string) {
 	b := tr.Block
 	pk := prog.Pkgs[b.Pkg]
+	usedPkgs := map[string]string{}
 	qual := func(p *types.Package) string {
 		if p == pk.Types {
 			return ""
 		}
+		usedPkgs[p.Path()] = p.Name()
 		return p.Name()
 	}
 	var sb strings.Builder
-	fmt.Fprintf(&sb, "package %s\n\nimport (\n\t\"fmt\"\n\t\"math\"\n\t\"testing\"\n)\n\nvar _ = math.Pi\n\n", b.PkgName)
-	fmt.Fprintf(&sb, "// Replay of %s\nfunc TestGovcReplay(t *testing.T) {\n", r.Obl.Name)
+	fmt.Fprintf(&sb, "// Replay of %s\nfunc TestGovcReplay(govcT *testing.T) {\n", r.Obl.Name)
 	// declare parameters
 	var sig *types.Signature
 	var fi *FuncInfo
@@ -278,8 +279,26 @@ func genReplayTest(prog *Prog, tr *TargetResult, r *OblResult) (src string, ok b
 		sb.WriteString("\t}\n")
 	}
 	sb.WriteString("}\n")
-	return sb.String(), true, ""
+	// header last: the imports are the packages the rendered types mention
+	var hd strings.Builder
+	fmt.Fprintf(&hd, "package %s\n\nimport (\n\t\"fmt\"\n\t\"math\"\n\t\"testing\"\n", b.PkgName)
+	var paths []string
+	for pth := range usedPkgs {
+		paths = append(paths, pth)
+	}
+	sort.Strings(paths)
+	for _, pth := range paths {
+		if pth != "fmt" && pth != "math" && pth != "testing" {
+			fmt.Fprintf(&hd, "\t%s %q\n", usedPkgs[pth], pth)
+		}
+	}
+	hd.WriteString(")\n\nvar _ = math.Pi\n\n")
+	return hd.String() + sb.String(), true, ""
 }
+
+// replayOverlays: every generated contract overlay of the module (a package's spec functions may
+// call the exported spec functions of the packages it imports).
+var replayOverlays map[string]string
 
 func runReplayTest(root, pkgDir, overlaySrc, testSrc string) (string, error) {
 	scratch, err := os.MkdirTemp("", "govc-replay-")
@@ -295,6 +314,16 @@ func runReplayTest(root, pkgDir, overlaySrc, testSrc string) (string, error) {
 		filepath.Join(pkgDir, overlayName):               ovPath,
 		filepath.Join(pkgDir, "zz_govc_replay_test.go"): tsPath,
 	}}
+	k := 0
+	for pth, src := range replayOverlays {
+		if pth == filepath.Join(pkgDir, overlayName) {
+			continue
+		}
+		k++
+		op := filepath.Join(scratch, fmt.Sprintf("overlay_%d.go", k))
+		os.WriteFile(op, []byte(src), 0o644)
+		ov["Replace"][pth] = op
+	}
 	data, _ := json.Marshal(ov)
 	ovJSON := filepath.Join(scratch, "ov.json")
 	os.WriteFile(ovJSON, data, 0o644)
@@ -329,6 +358,7 @@ func writeReplay(root, dir string, prog *Prog, tr *TargetResult, r *OblResult) s
 		} else {
 			rp.TestSource = src
 			rp.Overlay = prog.Overlays[filepath.Join(pkgDir, overlayName)]
+			replayOverlays = prog.Overlays
 			out, _ := runReplayTest(root, pkgDir, rp.Overlay, src)
 			rp.Output = truncate(out, 6000)
 			rp.Confirmed, rp.Note = judgeReplay(out, r)
@@ -392,6 +422,10 @@ func rerunReplay(root, path string) int {
 		fmt.Println("no executable replay:", rp.Note)
 		fmt.Println(rp.SolverOut)
 		return 1
+	}
+	// the overlays of the other packages are regenerated from the current contract files
+	if prog, err := LoadProg(root); err == nil {
+		replayOverlays = prog.Overlays
 	}
 	out, _ := runReplayTest(root, rp.PkgDir, rp.Overlay, rp.TestSource)
 	fmt.Println(out)
